@@ -49,7 +49,7 @@ theorem c13_jws_model (e : Jws.Env) (ci : ChainInfo) (via : Bool) (c : Content) 
     apply List.map_congr_left
     intro m _
     rw [hexact]
-  simp [jws, a1, a2, this, attrsRules_refl]
+  simp [jws, jwsDecoded, a1, a2, this, attrsRules_refl]
   intro x hx
   obtain ⟨k, hk, hnot⟩ := hn x hx
   rw [hk]
@@ -72,5 +72,247 @@ theorem c13_cose_model (e : Cose.Env) (ci : ChainInfo) (via : Bool) (c : Content
     | text s => simp [Cose.isSystem, hl] at hns; simp [Cose.toAKey, hns]
   simp [cose, hext, attrsRules_refl]
   exact hn
+
+/-! ### C07, C02, C01 -/
+open Algorithm Props Proofs.Envelope
+
+theorem baseRules_pass (ci : ChainInfo) (c : Content) (h : validateEnvelopeContent ci c = true) :
+    baseRules ci c = none := by
+  obtain ⟨h1, h2, _, h4, _, h6⟩ := validateEnvelopeContent_inv ci c h
+  obtain ⟨t1, t2⟩ := validateSigningAndExpiryTime_inv _ _ h4
+  unfold validateCertificateChain at h6
+  simp only [Bool.and_eq_true] at h6
+  obtain ⟨⟨_, hacc⟩, hleaf⟩ := h6
+  unfold baseRules
+  have e1 : (c.payloadLen == 0) = false := by simpa using h1
+  have e2 : (c.sigLen == 0) = false := by simpa using h2
+  have e3 : isZeroT c.signingTime = false := by unfold isZeroT; simpa using t1
+  have e4 : (!isZeroT c.expiry && !(decide (c.signingTime < c.expiry))) = false := by
+    rcases t2 with h | h
+    · have : isZeroT c.expiry = true := by unfold isZeroT; simpa using h
+      simp [this]
+    · simp [h]
+  simp only [e1, e2, e3, e4, hacc, Bool.false_eq_true, if_false, Bool.not_true]
+  cases hc : ci.certs with
+  | nil => rw [hc] at hleaf; simp at hleaf
+  | cons leaf rest =>
+    rw [hc] at hleaf
+    simp only [] at hleaf ⊢
+    cases hk : keyAlg leaf.key with
+    | none => rw [hk] at hleaf; simp at hleaf
+    | some a =>
+      rw [hk] at hleaf
+      simp only [beq_iff_eq] at hleaf
+      simp [hleaf]
+
+/-- **C07 monitor, JWS**: content the model returns passes every clause -/
+theorem c07_jws_model (e : Jws.Env) (ci : ChainInfo) (via : Bool) (c : Content) (exact : Jws.Member → String)
+    (hv : wrapRead false ci (Jws.content e) = .val c) :
+    jws "C07" e exact ci via c = none := by
+  obtain ⟨_, _, hval⟩ := wrapRead_inv _ _ _ _ hv
+  obtain ⟨hb, ms, h, a1, a2, hsch, k1, k2, k3, _⟩ := C07_sound_jws e ci c hv
+  obtain ⟨ms', h', b1, b2, hpres⟩ := C07_crit_present_jws e ci c hv
+  have : ms' = ms := by rw [a1] at b1; exact (Option.some.inj b1).symm
+  subst this
+  have : h' = h := by rw [a2] at b2; exact (Option.some.inj b2).symm
+  subst this
+  have hs : jwsSchemeRules h' c = none := by
+    unfold jwsSchemeRules
+    rcases hsch with ⟨s1, s2, s3⟩ | ⟨s1, s2, s3⟩
+    · simp [s1, s2, s3]
+    · have hne : (schemeAuthority == schemeX509) = false := by decide
+      simp [s1, s2, s3, hne]
+  have hc : jwsCritRules ms' h' c = none := by
+    unfold jwsCritRules
+    have c1 : h'.crit.contains Jws.kScheme = true := by simpa using k1
+    have c2 : (c.scheme == schemeAuthority && !h'.crit.contains Jws.kAuthSigningTime) = false := by
+      cases hsa : c.scheme == schemeAuthority with
+      | false => simp
+      | true => have := k2 (by simpa using hsa); simp [this]
+    have c3 : (!isZeroT c.expiry && !h'.crit.contains Jws.kExpiry) = false := by
+      cases hz : isZeroT c.expiry with
+      | true => simp
+      | false =>
+        have : c.expiry ≠ zeroT := by unfold isZeroT at hz; simpa using hz
+        have := k3 this
+        simp [this]
+    have c4 : (h'.crit.all fun l => (ms'.map (·.key)).contains l) = true := by
+      apply List.all_eq_true.mpr
+      intro l hl
+      have := hpres l hl
+      simpa using this
+    simp only [c1, c2, c3, c4, Bool.not_true, Bool.false_eq_true, if_false]
+  simp [jws, jwsDecoded, baseRules_pass ci c hval, a1, a2, hs, hc]
+
+/-- what go-cose's `UnmarshalCBOR` (a primitive of the model) guarantees about a protected header
+    that decoded: every label listed in `crit` is a label of the header -/
+def CoseCritPresent (e : Cose.Env) : Prop :=
+  ∀ l ∈ Cose.critLabels e.prot, (Cose.get e.prot l).isSome = true
+
+/-- **C07 monitor, COSE** -/
+theorem c07_cose_model (e : Cose.Env) (ci : ChainInfo) (via : Bool) (c : Content)
+    (hwf : CoseCritPresent e)
+    (hv : wrapRead false ci (Cose.content e) = .val c) :
+    cose "C07" e ci via c = none := by
+  obtain ⟨_, _, hval⟩ := wrapRead_inv _ _ _ _ hv
+  obtain ⟨_, hst, hsch, hex1, hex2, k1, k2, k3⟩ := C07_sound_cose e ci c hv
+  have hs : coseSchemeRules e c = none := by
+    unfold coseSchemeRules
+    have hne : (schemeAuthority == schemeX509) = false := by decide
+    rcases hst with ⟨s1, s2⟩ | ⟨s1, s2⟩
+    · rw [s1] at hsch; simp [hsch, s1, s2]
+    · rw [s1] at hsch; simp [hsch, s1, s2, hne]
+  have he : coseExpiryRules e c = none := by
+    unfold coseExpiryRules
+    cases hp : (Cose.get e.prot Cose.lExpiry).isSome with
+    | true => simp [hex1 hp]
+    | false =>
+      have := hex2 hp
+      simp [this, isZeroT]
+  have hc : coseCritRules e c = none := by
+    unfold coseCritRules
+    have c1 : (Cose.critLabels e.prot).contains Cose.lScheme = true := by simpa using k1
+    have c2 : (c.scheme == schemeAuthority && !(Cose.critLabels e.prot).contains Cose.lAuthSigningTime) = false := by
+      cases hsa : c.scheme == schemeAuthority with
+      | false => simp
+      | true => have := k2 (by simpa using hsa); simp [this]
+    have c3 : ((Cose.get e.prot Cose.lExpiry).isSome && !(Cose.critLabels e.prot).contains Cose.lExpiry) = false := by
+      cases hp : (Cose.get e.prot Cose.lExpiry).isSome with
+      | false => simp
+      | true => have := k3 hp; simp [this]
+    have c4 : ((Cose.critLabels e.prot).all fun l => (Cose.get e.prot l).isSome) = true :=
+      List.all_eq_true.mpr hwf
+    simp only [c1, c2, c3, c4, Bool.not_true, Bool.false_eq_true, if_false]
+  simp [cose, baseRules_pass ci c hval, hs, he, hc]
+
+theorem tableRow_of_mem : ∀ row ∈ table, tableRowOfKey row.1 = some row := by decide
+
+theorem c02Content_pass (k : Key) (c : Content) (h : ∃ row ∈ table, row.1 = k ∧ c.alg = row.2.1) :
+    c02Content k c = none := by
+  obtain ⟨row, hrow, h1, h2⟩ := h
+  unfold c02Content
+  rw [← h1, tableRow_of_mem row hrow]
+  simp [h2]
+
+theorem sameAttrSet_refl (l : List Attr) : sameAttrSet l l = true := by
+  unfold sameAttrSet
+  have : l.all (fun x => l.contains x) = true := by
+    apply List.all_eq_true.mpr
+    intro x hx
+    simpa using hx
+  simp [this]
+
+/-- the signature clause of the JWS monitors passes on whatever the model verifies -/
+theorem jws_sigClause_pass (e : Jws.Env) (ci : ChainInfo) (c : Content)
+    (hcons : LeafConsistent e.leafKey ci) (hv : wrapRead false ci (Jws.verify e) = .val c) :
+    jwsSigClause e true = none := by
+  obtain ⟨⟨id, rest, hx⟩, ⟨row, hrow, h1, _, ms, _, hp, hj, hs, _, _⟩, d1, d2, d3⟩ := C01_jws e ci c hcons hv
+  have := tableRow_of_mem row hrow
+  rw [h1] at this
+  simp [jwsSigClause, d1, d2, d3, hx, this, hp, hj, hs]
+
+/-- **C02 monitor, JWS, verify** -/
+theorem c02_jws_model_verify (e : Jws.Env) (ci : ChainInfo) (c : Content) (exact : Jws.Member → String)
+    (hcons : LeafConsistent e.leafKey ci) (hv : wrapRead false ci (Jws.verify e) = .val c) :
+    jws "C02" e exact ci true c = none := by
+  have hsig := jws_sigClause_pass e ci c hcons hv
+  obtain ⟨row, hrow, h1, h2, _⟩ := C02_verify_jws e ci c hcons hv
+  have hc := c02Content_pass e.leafKey c ⟨row, hrow, h1, h2⟩
+  simp [jws, hsig, hc]
+
+/-- **C02 monitor, JWS, content** -/
+theorem c02_jws_model_content (e : Jws.Env) (ci : ChainInfo) (c : Content) (exact : Jws.Member → String)
+    (hcons : LeafConsistent e.leafKey ci) (hv : wrapRead false ci (Jws.content e) = .val c) :
+    jws "C02" e exact ci false c = none := by
+  have hc := c02Content_pass e.leafKey c (C02_content_jws e ci c hcons hv)
+  simp [jws, jwsSigClause, hc]
+
+/-- the C01 clauses on content that is the model's decoding -/
+theorem c01_jws_core (e : Jws.Env) (c : Content) (hinner : Jws.content e = .val c) (via : Bool)
+    (hsig : jwsSigClause e via = none) (exact : Jws.Member → String) (ci : ChainInfo) :
+    jws "C01" e exact ci via c = none := by
+  obtain ⟨ms, h, alg, a1, a2, _, _, _, a6⟩ := Proofs.Jws.content_inv e c hinner
+  have halg : c.alg = alg := by rw [a6]; rfl
+  have hm : Jws.contentOf e ms h c.alg = c := by rw [halg]; exact a6.symm
+  have hch : c.chain = e.x5c.filterMap id := by rw [a6]; rfl
+  simp [jws, jwsDecoded, hsig, a1, a2, hm, sameAttrSet_refl, hch]
+
+/-- **C01 monitor, JWS, verify** -/
+theorem c01_jws_model_verify (e : Jws.Env) (ci : ChainInfo) (c : Content) (exact : Jws.Member → String)
+    (hcons : LeafConsistent e.leafKey ci) (hv : wrapRead false ci (Jws.verify e) = .val c) :
+    jws "C01" e exact ci true c = none := by
+  obtain ⟨_, hinner, _⟩ := wrapRead_inv _ _ _ _ hv
+  obtain ⟨_, _, hcontent⟩ := Proofs.Jws.verify_inv e c hinner
+  exact c01_jws_core e c hcontent true (jws_sigClause_pass e ci c hcons hv) exact ci
+
+/-- **C01 monitor, JWS, content** -/
+theorem c01_jws_model_content (e : Jws.Env) (ci : ChainInfo) (c : Content) (exact : Jws.Member → String)
+    (hv : wrapRead false ci (Jws.content e) = .val c) :
+    jws "C01" e exact ci false c = none := by
+  obtain ⟨_, hinner, _⟩ := wrapRead_inv _ _ _ _ hv
+  exact c01_jws_core e c hinner false (by simp [jwsSigClause]) exact ci
+
+/-! ### COSE -/
+
+theorem cose_sigClause_pass (e : Cose.Env) (ci : ChainInfo) (c : Content)
+    (hv : wrapRead false ci (Cose.verify e) = .val c) : coseSigClause e true = none := by
+  obtain ⟨⟨id, rest, hx⟩, ⟨row, hrow, h1, _, hh, hs⟩, hp, _⟩ := C01_cose e ci c hv
+  have := tableRow_of_mem row hrow
+  rw [h1] at this
+  simp [coseSigClause, hx, this, hh, hs, hp]
+
+/-- **C02 monitor, COSE, verify** -/
+theorem c02_cose_model_verify (e : Cose.Env) (ci : ChainInfo) (c : Content)
+    (hv : wrapRead false ci (Cose.verify e) = .val c) :
+    cose "C02" e ci true c = none := by
+  obtain ⟨row, hrow, h1, h2, _⟩ := C02_verify_cose e ci c hv
+  simp [cose, cose_sigClause_pass e ci c hv, c02Content_pass e.leafKey c ⟨row, hrow, h1, h2⟩]
+
+/-- **C02 monitor, COSE, content** -/
+theorem c02_cose_model_content (e : Cose.Env) (ci : ChainInfo) (c : Content)
+    (hcons : LeafConsistent e.leafKey ci) (hv : wrapRead false ci (Cose.content e) = .val c) :
+    cose "C02" e ci false c = none := by
+  simp [cose, coseSigClause, c02Content_pass e.leafKey c (C02_content_cose e ci c hcons hv)]
+
+theorem coseSchemeExpiry_pass (e : Cose.Env) (ci : ChainInfo) (c : Content)
+    (hv : wrapRead false ci (Cose.content e) = .val c) :
+    coseSchemeRules e c = none ∧ coseExpiryRules e c = none := by
+  obtain ⟨_, hst, hsch, hex1, hex2, _⟩ := C07_sound_cose e ci c hv
+  constructor
+  · unfold coseSchemeRules
+    have hne : (schemeAuthority == schemeX509) = false := by decide
+    rcases hst with ⟨s1, s2⟩ | ⟨s1, s2⟩
+    · rw [s1] at hsch; simp [hsch, s1, s2]
+    · rw [s1] at hsch; simp [hsch, s1, s2, hne]
+  · unfold coseExpiryRules
+    cases hp : (Cose.get e.prot Cose.lExpiry).isSome with
+    | true => simp [hex1 hp]
+    | false =>
+      have := hex2 hp
+      simp [this, isZeroT]
+
+theorem c01_cose_core (e : Cose.Env) (ci : ChainInfo) (c : Content) (via : Bool)
+    (hsig : coseSigClause e via = none) (hv : wrapRead false ci (Cose.content e) = .val c) :
+    cose "C01" e ci via c = none := by
+  obtain ⟨_, hinner, _⟩ := wrapRead_inv _ _ _ _ hv
+  obtain ⟨cty, scheme, alg, st, ex, a1, _, _, _, _, _, _, _, a9⟩ := cose_content_inv e c hinner
+  obtain ⟨hs, he⟩ := coseSchemeExpiry_pass e ci c hv
+  have p1 : c.payload = e.payload := by rw [a9]; rfl
+  have p2 : c.payloadLen = e.payloadLen := by rw [a9]; rfl
+  have p3 : c.cty = cty := by rw [a9]; rfl
+  have p4 : c.extAttrs = Cose.extAttrsOf e := by rw [a9]; rfl
+  have p5 : c.chain = Cose.chainOf e := by rw [a9]; rfl
+  simp [cose, hsig, p1, p2, a1, p3, hs, he, p4, sameAttrSet_refl, p5]
+
+/-- **C01 monitor, COSE, verify** -/
+theorem c01_cose_model_verify (e : Cose.Env) (ci : ChainInfo) (c : Content)
+    (hv : wrapRead false ci (Cose.verify e) = .val c) : cose "C01" e ci true c = none :=
+  c01_cose_core e ci c true (cose_sigClause_pass e ci c hv) (C07_verify_implies_content_cose e ci c hv)
+
+/-- **C01 monitor, COSE, content** -/
+theorem c01_cose_model_content (e : Cose.Env) (ci : ChainInfo) (c : Content)
+    (hv : wrapRead false ci (Cose.content e) = .val c) : cose "C01" e ci false c = none :=
+  c01_cose_core e ci c false (by simp [coseSigClause]) hv
+
 
 end NotationCore.EnvMonitor
